@@ -277,6 +277,7 @@ func (p *FSM) Lookup(l interface{}) (interface{}, error) {
 
 // Update advances the FSM.
 func (p *FSM) Update(updates []sm.Entry) ([]sm.Entry, error) {
+	verifUpdate(p.clusterID, p.nodeID, updates)
 	db := p.pebble.Load()
 
 	ctx := &updateContext{
